@@ -51,6 +51,15 @@ theorem C05_count_exact (s : St) (hr : Reachable s) :
     s.cnt = s.creating + s.staged + s.destroying + nlive s :=
   (inv_of_reachable hr).count
 
+/-- **Every unit started before an idle sample has finished.**  The counter is the number of
+    `create_thread` increments minus the number of `destroy_thread` decrements performed so far;
+    when it reads zero, every unit of activity ever started (in particular every task submitted
+    before the sampling call) has been completely destroyed. -/
+theorem C05_started_finished (s : St) (hr : Reachable s) :
+    s.cnt + s.finished = s.started ∧ (s.cnt = 0 → s.finished = s.started) := by
+  have h := (inv_of_reachable hr).history
+  exact ⟨h, fun h0 => by omega⟩
+
 /-- **wait() is sound.**  Whenever `thread_manager::wait`'s predicate samples a value that lets
     the wait return (`v ≤ 1` if the caller is a pika task, `v ≤ 0` otherwise), no unit of activity
     exists besides the caller's own task: every `create_thread` whose increment happened before
@@ -163,6 +172,21 @@ theorem C05_stop_after_finalize (s s' : St) (hr : Reachable s) (a r : Nat)
   obtain ⟨h1, h2, h3, h4⟩ := drained_of_cnt_zero hi h0
   refine ⟨hi.stopFin (by rw [hg.2.1]; simp) (by rw [hg.2.1]; simp), h0, h1, h2, h3, ?_⟩
   intro o ho; rw [h4 o] at ho; cases ho
+
+/-- **Each incarnation runs its own work completely.**  When `pika::stop()` returns, every unit of
+    activity ever started — in this incarnation or an earlier one — has finished; together with
+    `C05_restart_config` (a new runtime starts from an idle counter) each incarnation starts with
+    nothing left over and ends with nothing left behind. -/
+theorem C05_incarnation_complete (s s' : St) (hr : Reachable s) (a r : Nat)
+    (h : step s (.stopExit a r) = some s') : s.finished = s.started ∧ s'.finished = s'.started := by
+  have h0 := (C05_stop_after_finalize s s' hr a r h).2.1
+  have hh := (C05_started_finished s hr).2 h0
+  simp only [step] at h
+  split at h
+  · simp only [Option.some.injEq] at h
+    subst h
+    exact ⟨hh, hh⟩
+  · simp at h
 
 /-- **stop() returns the entry function's result.**  The value returned by `pika::stop()` is the
     runtime's `result_` … -/
